@@ -32,6 +32,7 @@ fn main() {
     for p in &parts {
         case::run_part(p, &mut rep);
     }
+    props::extra(prop, tier, &mut rep);
     props::finalize(prop, tier, &mut rep);
     std::process::exit(rep.finish());
 }
